@@ -192,6 +192,60 @@ Proof.
   - rewrite H. rewrite app_length. lia.
 Qed.
 
+(* ---------- the window walk of MatchedBlockIterator visits exactly the blocks of the range ---------- *)
+Lemma seqN_app : forall n m a, seqN a (n + m) = seqN a n ++ seqN (a + N.of_nat n) m.
+Proof.
+  induction n as [| n IH]; intros m a; simpl.
+  - rewrite N.add_0_r. reflexivity.
+  - rewrite IH. f_equal. f_equal. f_equal. lia.
+Qed.
+
+Lemma rangeN_app a b c : a <= b + 1 -> b <= c -> rangeN a b ++ rangeN (b + 1) c = rangeN a c.
+Proof.
+  intros H1 H2. unfold rangeN.
+  replace (N.to_nat (N.succ c - a)) with (N.to_nat (N.succ b - a) + N.to_nat (N.succ c - (b + 1)))%nat by lia.
+  rewrite seqN_app. f_equal. f_equal. lia.
+Qed.
+
+Lemma rangeN_empty a b : b < a -> rangeN a b = [].
+Proof. intros. unfold rangeN. replace (N.to_nat (N.succ b - a)) with 0%nat by lia. reflexivity. Qed.
+
+Section Walk.
+Variable W : N.
+Hypothesis Wpos : 0 < W.
+
+Lemma walk_done fuel ws lo to : to < ws -> walk W fuel ws lo to = [].
+Proof. intros H. destruct fuel; simpl; auto. apply N.ltb_lt in H. rewrite H. reflexivity. Qed.
+
+Lemma walk_spec : forall fuel ws lo to,
+  ws <= lo -> lo < ws + W -> lo <= to + 1 -> (to - ws) / W < N.of_nat fuel ->
+  walk W fuel ws lo to = rangeN lo to.
+Proof.
+  induction fuel as [| fuel IH]; intros ws lo to H1 H2 H3 Hf;
+    [simpl in Hf; exfalso; apply (N.nlt_0_r _ Hf) |].
+  simpl. destruct (to <? ws) eqn:E.
+  - apply N.ltb_lt in E. symmetry. apply rangeN_empty. lia.
+  - apply N.ltb_ge in E.
+    destruct (N.lt_ge_cases to (ws + W)) as [Hlt | Hge].
+    + rewrite walk_done by lia. rewrite app_nil_r. f_equal. lia.
+    + replace (N.min (ws + W - 1) to) with (ws + W - 1) by lia.
+      rewrite IH; try lia.
+      * rewrite <- (rangeN_app lo (ws + W - 1) to) by lia. f_equal. f_equal. lia.
+      * assert (Hd : (to - ws) / W = (to - (ws + W)) / W + 1).
+        { replace (to - ws) with (to - (ws + W) + 1 * W) by lia. apply N.div_add. lia. }
+        generalize dependent ((to - ws) / W). generalize ((to - (ws + W)) / W). intros. lia.
+Qed.
+
+Lemma walk_blocks_eq from to : from <= to + 1 -> walk_blocks W from to = rangeN from to.
+Proof.
+  intros H. unfold walk_blocks. apply walk_spec; auto.
+  - apply aligned_le; auto.
+  - apply aligned_lt; auto.
+  - assert (Hq : (to - aligned W from) / W <= to / W) by (apply N.div_le_mono; lia).
+    generalize dependent ((to - aligned W from) / W). generalize (to / W). intros. lia.
+Qed.
+End Walk.
+
 (* ---------- the cache filled by a query does not change what a later lookup sees ---------- *)
 Section Pages.
 Variable W : N.
@@ -273,6 +327,7 @@ Proof.
     { unfold rangeN. replace (N.to_nat (N.succ to' - start)) with 0%nat by lia. reflexivity. }
     simpl. reflexivity.
   - apply N.ltb_ge in Elt.
+    rewrite (walk_blocks_eq W Wpos start to') by lia.
     destruct ready as [w [nx Hr]].
     assert (He : ensure W s' = s').
     { unfold ensure. rewrite Hrun, Hr. reflexivity. }
